@@ -16,8 +16,8 @@ META = dict(
                 "agree) - which makes it the same for every member, gives the MEC/CPDAG for I = {} and {A} for I = all nodes, "
                 "and monotonicity in I.",
     bounds=dict(quick="DAGs p <= 3 x all I; p = 4 x all I (543 x 16 = 8,688 pairs); chain graphs p <= 6 x all I with symbolic weights; pdag_to_icpdag on binary PDAGs p <= 3 x all I; wide: 3-node DAG patterns embedded at nodes 11,1,9 of a 12-node graph x |I| <= 2 (4-node patterns in the thorough tier)",
-                thorough="as quick plus p = 5 x |I| <= 1 (29,281 x 6) and pdag_to_icpdag on all PDAGs p = 4 x all I"),
-    outside=["p = 5 with |I| >= 2; p > 5; chain graphs beyond p = 6"],
+                thorough="as quick plus p = 5 DAGs with <= 5 edges x |I| <= 1 and pdag_to_icpdag on all PDAGs p = 4 x all I"),
+    outside=["p = 5 with |I| >= 2 or more than 5 edges; p > 5; chain graphs beyond p = 6"],
     stubs=["numpy -> symnp"],
     assumptions=["z3 sound; symnp agrees with numpy (validated per path against the real library)"],
 )
@@ -139,8 +139,8 @@ def obligations(tier):
                              "imec / dag_to_icpdag on every 4-node DAG pattern embedded at nodes 11, 1, 9, 0 of a 12-node graph x target sets of size <= 2",
                              expect=('checked',), weight=80))
     if tier == 'thorough':
-        ob.append(Obligation('dag_p5_I1', h_dag, I.dag_pair_cubes(5, 4, dict(maxI=1)),
-                             "imec / dag_to_icpdag on every DAG pattern on 5 nodes x |I| <= 1", expect=('checked',), weight=200, timeout_ms=120000))
+        ob.append(Obligation('dag_p5_I1', h_dag, I.dag_pair_cubes(5, 4, dict(maxI=1, max_edges=5)),
+                             "imec / dag_to_icpdag on every DAG pattern on 5 nodes with <= 5 edges x |I| <= 1", expect=('checked',), weight=200, timeout_ms=120000))
         ob.append(Obligation('pdag_p4', h_pdag, I.pair_cubes(4, 3), "pdag_to_icpdag on every binary PDAG on 4 nodes x every target set",
                              expect=('has extension', 'no extension'), weight=100))
     return ob
